@@ -132,7 +132,9 @@ def check_parity_of_vector(
 
     # Check if an even number of the marked qubits of each bitstring are in the 1 state
     bitstring_subset = bitstrings_vector[:, np.fromiter(marked_qubits, dtype=int)]
-    return (bitstring_subset.sum(axis=1) + 1) % 2
+    # Sum as signed integers: bits given as unsigned numpy integers (e.g. from
+    # np.unpackbits) would otherwise make callers' differences of parities wrap around.
+    return (bitstring_subset.sum(axis=1, dtype=int) + 1) % 2
 
 
 def get_parities_from_measurements(
